@@ -40,7 +40,7 @@ FAMILY = {
     "C03": dict(mc="MC_Fault", gen="MC_GenFault", quick=200, thorough=2000, drivers=["secret", "configmap", "memory"],
                 sweep=(40, 400), enum=["MC_EnumFault.cfg"], sweep_enum=True),
     "C06": dict(mc="MC_Dry", gen="MC_GenDry", quick=200, thorough=2000, drivers=["secret", "memory", "configmap"], cli=2,
-                enum=["MC_EnumDry.cfg"], extra_gen=["MC_GenDryCrash.cfg"], gen_split=True),
+                enum=["MC_EnumDry.cfg"], extra_gen=["MC_GenDryCrash.cfg", "MC_GenDryOdd.cfg"], gen_split=True),
     "C07": dict(mc="MC_Own", gen="MC_GenOwn", quick=260, thorough=2000, drivers=["secret", "memory", "configmap"],
                 enum=["MC_EnumOwn.cfg"], enum_thorough=["MC_EnumOwn3.cfg"]),
     "C09": dict(mc="MC_Conc", gen="MC_GenConc", quick=480, thorough=4000, drivers=["secret", "memory", "configmap"], gen_split=True,
